@@ -24,9 +24,16 @@ static int I(const std::string& s) { return (int)strtoll(s.c_str(), 0, 10); }
 static TypeHash TH(const std::string& s) { return static_cast<TypeHash>(I(s)); }
 static Pbkdf2Hash PH(const std::string& s) { return static_cast<Pbkdf2Hash>(I(s)); }
 
+// two forms of one API: each is called on its own (a throw from the first must not hide the second) and the verdicts must agree
+template <class F1, class F2> static std::string both(F1 f1, F2 f2) {
+    std::string v1 = guarded([&]() { f1(); return std::string("accept"); });
+    std::string v2 = guarded([&]() { f2(); return std::string("accept"); });
+    return v1 == v2 ? v1 : "FORMS-DISAGREE:" + v1 + "/" + v2;
+}
+
 static std::string call(const std::vector<std::string>& a) {
     const std::string& f = a[1];
-    if (f == "gethash") { get_hash(g_area, 3, TH(a[2])); get_hash(std::string("abc"), TH(a[2])); return "accept"; }
+    if (f == "gethash") return both([&]() { get_hash(g_area, 3, TH(a[2])); }, [&]() { get_hash(std::string("abc"), TH(a[2])); });
     if (f == "gethmac") { get_hmac(P(a[2]), Z(a[3]), P(a[4]), Z(a[5]), TH(a[6])); return "accept"; }
     if (f == "hmacinit") { HmacContext c(TH(a[4])); c.init(P(a[2]), Z(a[3])); return "accept"; }
     if (f == "hmacupdate") { HmacContext c(TH(a[4])); if (I(a[4]) >= 0 && I(a[4]) <= 2) c.init("k", 1); c.update(P(a[2]), Z(a[3])); return "accept"; }
@@ -44,7 +51,7 @@ static std::string call(const std::vector<std::string>& a) {
         return ok ? "accept" : "false";
     }
     if (f == "pepper") { pbkdf2_with_pepper(P(a[2]), Z(a[3]), P(a[4]), Z(a[5]), P(a[6]), Z(a[7]), (uint32_t)Z(a[8]), Z(a[9]), PH(a[10])); return "accept"; }
-    if (f == "hkdfx") { hkdf_extract_sha256(P(a[2]), Z(a[3]), P(a[4]), Z(a[5])); hkdf_extract_sha256_secure(P(a[2]), Z(a[3]), P(a[4]), Z(a[5])); return "accept"; }
+    if (f == "hkdfx") return both([&]() { hkdf_extract_sha256(P(a[2]), Z(a[3]), P(a[4]), Z(a[5])); }, [&]() { hkdf_extract_sha256_secure(P(a[2]), Z(a[3]), P(a[4]), Z(a[5])); });
     if (f == "hkdfe") { hkdf_expand_sha256(P(a[2]), Z(a[3]), P(a[4]), Z(a[5]), Z(a[6])); return "accept"; }
     if (f == "hkdfes") { hkdf_expand_sha256_secure(P(a[2]), Z(a[3]), P(a[4]), Z(a[5]), Z(a[6])); return "accept"; }
     if (f == "hotp") { get_hotp_code(P(a[2]), Z(a[3]), 1, I(a[4]), TH(a[5])); return "accept"; }
@@ -70,6 +77,9 @@ static std::string call(const std::vector<std::string>& a) {
     throw std::logic_error("unknown api " + f);
 }
 
+#ifdef VERIF_COV
+extern "C" void __gcov_dump(void);
+#endif
 static void on_terminate() { const char m[] = "terminate\n"; (void)!write(3, m, sizeof m - 1); _exit(0); }
 
 int main(int argc, char** argv) {
@@ -86,7 +96,11 @@ int main(int argc, char** argv) {
             close(fd[0]); dup2(fd[1], 3); alarm(60);
             std::set_terminate(on_terminate);
             std::string r = guarded([&]() { return call(a); });
-            r += "\n"; (void)!write(3, r.c_str(), r.size()); _exit(0);
+            r += "\n"; (void)!write(3, r.c_str(), r.size());
+#ifdef VERIF_COV
+            __gcov_dump();      // coverage diagnostic builds only (bin/coverage): children leave through _exit
+#endif
+            _exit(0);
         }
         close(fd[1]);
         std::string out; char buf[256]; ssize_t n;
